@@ -2,6 +2,7 @@
   C08 — error recovery is transparent on success, loud on failure, and never silent.
 -/
 import ChumskyModel.Proofs.Lemmas.Top
+import ChumskyModel.Proofs.Lemmas.NestedDelims
 set_option linter.unusedSimpArgs false
 namespace Chumsky
 
@@ -123,6 +124,66 @@ theorem c08_both_fail_machine (n : Nat) (env : Env) (m : Mode) (a r : G) (st st1
   have : (st1.rewind st.save).alt = some e := by simp [halt]
   simp only [this, hr]
 
+/-! ### nested_delimiters (`Model/Delims.lean`: the grammar `recovery.rs:234-275` builds; lemmas in Lemmas/NestedDelims.lean) -/
+
+/-- **`nested_delimiters` consumes exactly one balanced delimited region** (every table of delimiter pairs, every input,
+    position and fuel): what the strategy matches starts with `start`, ends with `end` — the end position is just after that
+    closing delimiter — and the tokens between are balanced: plain tokens, none of them a delimiter, and properly nested
+    blocks of the declared pairs. Its output is the span of exactly that region. (`hdef`: the strategy's `recursive` block is
+    definition `K`.) -/
+theorem c08_nested_delimiters_region {env : Env} {ctx : Val} {K : Nat} {first : Nat × Nat} {others : List (Nat × Nat)}
+    (hdef : env.defs[K]? = some (ndBlock K first others)) {n s v s' em}
+    (h : peg n env (ndTop K first) s ctx = .ok v s' em) :
+    ∃ q, env.toks[s.pos]? = some first.1 ∧ env.toks[q]? = some first.2 ∧ s'.pos = q + 1 ∧
+      Balanced (ndSkip first others) (first :: others) (env.seg (s.pos + 1) q) ∧
+      v = .span (env.mkSpan s.pos s'.pos).1 (env.mkSpan s.pos s'.pos).2 := by
+  obtain ⟨⟨q, ho, hb, hc, hr⟩, hv⟩ := peg_ndTop_region hdef h
+  exact ⟨q, ho, hc, hr, hb.balanced, hv⟩
+
+/-- as a recovery strategy: where `p` fails and `nested_delimiters` matches, the result is the fallback for that one
+    region, the input is left just after it, and exactly one error is added -/
+theorem c08_nested_delimiters_recovers {env : Env} {ctx : Val} {K : Nat} {first : Nat × Nat} {others : List (Nat × Nat)}
+    (hdef : env.defs[K]? = some (ndBlock K first others)) {n a s v s' em}
+    (ha : peg n env a s ctx = .fail) (h : peg (n + 1) env (.recoverVia a (ndTop K first)) s ctx = .ok v s' em) :
+    (∃ q, env.toks[s.pos]? = some first.1 ∧ env.toks[q]? = some first.2 ∧ s'.pos = q + 1 ∧
+      Balanced (ndSkip first others) (first :: others) (env.seg (s.pos + 1) q)) ∧
+    ∃ e0, em = e0 ++ [.recovered s'.pos] := by
+  rw [peg_succ] at h
+  simp only [pegStep, ha] at h
+  cases hr : peg n env (ndTop K first) s ctx <;> simp only [hr, reduceCtorEq] at h
+  rename_i v1 s1 e1
+  simp only [SOut.ok.injEq] at h
+  obtain ⟨_, hs, he⟩ := h
+  subst hs
+  obtain ⟨q, h1, h2, h3, h4, _⟩ := c08_nested_delimiters_region hdef hr
+  exact ⟨⟨q, h1, h2, h3, h4⟩, e1, he.symm⟩
+
+/-- an unbalanced region is not skipped: if the token after a balanced prefix of the inside is neither a plain token, nor an
+    opening delimiter of a block that closes, nor the closing delimiter, the strategy fails — stated as the contrapositive
+    shape used by the check: success implies the closing delimiter is there -/
+theorem c08_nested_delimiters_closes {env : Env} {ctx : Val} {K : Nat} {first : Nat × Nat} {others : List (Nat × Nat)}
+    (hdef : env.defs[K]? = some (ndBlock K first others)) {n s v s' em}
+    (h : peg n env (ndTop K first) s ctx = .ok v s' em) : 2 ≤ s'.pos - s.pos ∧ env.toks[s'.pos - 1]? = some first.2 := by
+  obtain ⟨⟨q, _, hb, hc, hr⟩, _⟩ := peg_ndTop_region hdef h
+  have := hb.le
+  exact ⟨by omega, by rw [hr]; simpa using hc⟩
+
+/-- non-vacuity: `( a [ b ] ) x` — the strategy takes the six tokens of the region and stops before `x` -/
+example :
+    (match parseTop 40 { toks := [40, 97, 91, 98, 93, 41, 120], defs := [ndBlock 0 (40, 41) [(91, 93)]], memoOn := false } .emit
+        (.then_ (.recoverVia (.just [97]) (ndTop 0 (40, 41))) (.collect .string (.repeated .any 0 none))) with
+      | .result r f => (r.output, r.errs.length, f.pos)
+      | _ => (none, 99, 0)) = (some (.pair (.span 0 6) (.toks [120])), 1, 7) := by
+  decide +kernel
+
+/-- … and an unbalanced region `( [ )` is not accepted by the strategy (both fail) -/
+example :
+    (match parseTop 40 { toks := [40, 91, 41], defs := [ndBlock 0 (40, 41) [(91, 93)]], memoOn := false } .emit
+        (.recoverVia (.just [97]) (ndTop 0 (40, 41))) with
+      | .result r _ => (r.output, r.errs.length)
+      | _ => (none, 99)) = (none, 1) := by
+  decide +kernel
+
 /-- non-vacuity: skip_until skips exactly two tokens before `until` matches, reporting the original failure -/
 example :
     (match parseTop 8 { toks := [120, 121, 98], memoOn := false } .emit
@@ -139,4 +200,7 @@ example :
 #print axioms c08_skip_until_min
 #print axioms c08_recovered_error_is_pending
 #print axioms c08_both_fail_machine
+#print axioms c08_nested_delimiters_region
+#print axioms c08_nested_delimiters_recovers
+#print axioms c08_nested_delimiters_closes
 end Chumsky
